@@ -15,6 +15,10 @@ impl GetLastStateProof {
     #[verifier::external_body]
     pub fn start_number(&self) -> (r: PackedU64) ensures r@ == self.s_start_number() { unimplemented!() }
     #[verifier::external_body]
+    pub fn difficulties(&self) -> (r: Vec<PackedU256>)
+        ensures r@.len() == self.s_difficulties().len(),
+                forall|i: int| 0 <= i < r@.len() ==> (#[trigger] r@[i])@ == self.s_difficulties()[i] { unimplemented!() }
+    #[verifier::external_body]
     pub fn difficulty_boundary(&self) -> (r: PackedU256) ensures r@ == self.s_difficulty_boundary() { unimplemented!() }
 }
 // ===== end =====
